@@ -193,21 +193,22 @@ theorem lookup_register (key key' : String) (c : PhysTable) (l : Db) :
 
 /-- one round of the registration loop of `lazy.Feed.Reader.__call__` -/
 def registerOne (st : State) (f : Feed) (t : Source) : State :=
-  if st.partitions.contains t then st else
+  if st.partitions.contains (f.classOf t, t) then st else
     match f.srcs.lookup t with
     | none => st
     | some key =>
       match (storageOf st f).lookup key with
       | none => st
       | some content =>
-        { st with backend := (key, content) :: st.backend.filter (·.1 != key), partitions := t :: st.partitions }
+        { st with backend := (key, content) :: st.backend.filter (·.1 != key),
+                  partitions := (f.classOf t, t) :: st.partitions }
 
 theorem registerTables_cons (st : State) (f : Feed) (t : Source) (ts : List Source) :
     registerTables st f (t :: ts) = registerTables (registerOne st f t) f ts := rfl
 
 /-- the origins recorded in `PARTITIONS` are in the backend -/
 def PartsOk (f : Feed) (st : State) : Prop :=
-  ∀ t ∈ st.partitions, ∀ key, f.srcs.lookup t = some key → (st.backend.lookup key).isSome = true
+  ∀ p ∈ st.partitions, ∀ key, f.srcs.lookup p.2 = some key → (st.backend.lookup key).isSome = true
 
 /-- `st'` comes from `st` by registrations: storage and caches untouched, nothing leaves the backend -/
 structure Registers (st st' : State) : Prop where
@@ -230,10 +231,10 @@ theorem registerOne_spec (f : Feed) (st : State) (t : Source) (hb : BackendOk (s
       (∀ key, f.srcs.lookup t = some key → ((storageOf st f).lookup key).isSome = true →
         ((registerOne st f t).backend.lookup key).isSome = true) := by
   unfold registerOne
-  by_cases hpt : st.partitions.contains t = true
+  by_cases hpt : st.partitions.contains (f.classOf t, t) = true
   · simp only [hpt, if_true]
-    exact ⟨Registers.refl st, hb, hp, fun key hk _ => hp t (by simpa using hpt) key hk⟩
-  · have hpt' : st.partitions.contains t = false := by simpa using hpt
+    exact ⟨Registers.refl st, hb, hp, fun key hk _ => hp (f.classOf t, t) (by simpa using hpt) key hk⟩
+  · have hpt' : st.partitions.contains (f.classOf t, t) = false := by simpa using hpt
     simp only [hpt', Bool.false_eq_true, if_false]
     cases hk : f.srcs.lookup t with
     | none => exact ⟨Registers.refl st, hb, hp, fun key hk' _ => by cases hk'⟩
@@ -311,7 +312,7 @@ structure LazyOk (srcs : Sources) (k : Nat) (dbs : List Db) (st : State) : Prop 
   mem : ∀ q v, st.mem.lookup (keyOf q) = some v → evalSql q (dbs.getD k []) = some v
   disk : ∀ q v, st.disk.lookup (keyOf q) = some v → evalSql q (dbs.getD k []) = some v
   back : BackendOk (dbs.getD k []) st.backend
-  parts : ∀ t ∈ st.partitions, ∀ key, srcs.lookup t = some key → (st.backend.lookup key).isSome = true
+  parts : ∀ p ∈ st.partitions, ∀ key, srcs.lookup p.2 = some key → (st.backend.lookup key).isSome = true
   parsed : ∀ i s q, st.parsed.lookup (i, s) = some q → parse srcs s = .ok q
 
 theorem lookup_cons_key' (q q' : SqlSel) (v : ORel) (l : List (FeedCache.Key × ORel)) :
@@ -375,7 +376,7 @@ theorem exec_lazy (srcs : Sources) (k : Nat) (dbs : List Db) (st : State) (hst :
       rw [hcq, hb1 n c hcq]
     rw [hagree]
     have hstor' : (registerTables st f (usedTables s)).storages = dbs := by rw [reg.storages, hst.stor]
-    have hparts' : ∀ t ∈ (registerTables st f (usedTables s)).partitions, ∀ key, srcs.lookup t = some key →
+    have hparts' : ∀ t ∈ (registerTables st f (usedTables s)).partitions, ∀ key, srcs.lookup t.2 = some key →
         ((registerTables st f (usedTables s)).backend.lookup key).isSome = true := by
       intro t ht key hkk; exact hp1 t ht key (by rw [hsr]; exact hkk)
     have hparsed' : ∀ i s' q', (registerTables st f (usedTables s)).parsed.lookup (i, s') = some q' → parse srcs s' = .ok q' := by
